@@ -175,6 +175,14 @@ class HistoryGen:
         self.now = list(scn.now0)
         self.alive = False
         self.must_send = False
+        self.tz = 0
+
+    def op_zone(self, z):
+        """the local date jumps by whole days (z = offset of the new zone in days) while time goes on"""
+        d, k = self.now
+        self.now = [d, k + 1]
+        self.tz = z
+        self.s.ops.append({"op": "zone", "z": z, "ms": ms_of(d, k + 1)})
 
     def op_now(self, d, k):
         assert (d, k) >= tuple(self.now)
@@ -189,7 +197,7 @@ class HistoryGen:
         self.alive = True
 
     def op_send(self, target_len, fancy=True):
-        rid = self.s.new_rec(self.rnd, target_len, self.now[0], fancy)
+        rid = self.s.new_rec(self.rnd, target_len, self.now[0] + self.tz, fancy)
         self.s.ops.append({"op": "send", "b64": b64(self.s.payload[rid]), "rec": rid})
         self.must_send = False
         return rid
@@ -387,6 +395,33 @@ def gen_gz_content(rnd, sid, big):
     g.op_send(12, fancy=False)
     g.op_destroy()
     s.tags.add("gz-content:" + kind)
+    return s
+
+
+def gen_zone_history(rnd, sid, focus="C06"):
+    """the local date goes BACK by a day in the middle of a history (the process moved to another time zone) while
+    time itself goes on: rotated files named after the later date are the OLDER ones.  Environment rules as in
+    MC_Rotation!MCZone: the sink is initialised before the change and not restarted after it, the clock moves between
+    the records written after it, and the date gone back to has no rotated files yet."""
+    fname = rnd.choice(["app.log", "app.log", "app", "my.app.log"])
+    L = rnd.choice([12, 16, 20, 30])
+    N = rnd.choice([2, 2, 3, 3, 4, 0]) if focus != "C09" else rnd.choice([0, 2, 3, -1])
+    opts = rnd.choice([0, 0, 4, 2, 6]) if focus != "C09" else rnd.choice([2, 6])
+    s = Scenario(sid, fname, "rot", L, N, opts, now=(2, rnd.choice([0, 7])))
+    g = HistoryGen(rnd, s)
+    g.op_ctor()
+    minlen = 8
+    for _ in range(rnd.randint(2, 7)):
+        g.op_send(rnd.choice(size_choices(L, minlen)))
+        if rnd.random() < 0.3:
+            g.op_now(g.now[0], g.now[1] + rnd.choice([1, 2, 50]))
+    g.op_zone(-1)
+    for _ in range(rnd.randint(3, 9)):
+        g.op_now(g.now[0], g.now[1] + rnd.choice([1, 1, 3, 40]))
+        g.op_send(rnd.choice(size_choices(L, minlen)))
+        if rnd.random() < 0.15:
+            g.op_flush()
+    s.tags.add("zone-back")
     return s
 
 
@@ -591,6 +626,9 @@ def translate(scn, raw):
             t = t_of(int(e["ms"]))
             info["days"].add(t[0])
             evs.append({"e": "Now", "t": t})
+        elif k == "Zone":
+            evs.append({"e": "Zone", "z": int(e["z"]), "t": t_of(int(e["ms"]))})
+            info["zoned"] = True
         elif k == "Begin":
             op = scn.ops[e["i"]]
             ev = {"e": "Begin", "op": e["op"], "rec": 0, "len": 0}
